@@ -640,6 +640,94 @@ func headerAfterCutWrite(id string, seed uint64) runner.Result {
 	return res
 }
 
+// rfConn is an underlying connection with the io.ReaderFrom fast path (*net.TCPConn has one): what
+// it is handed that way goes to the wire exactly like written bytes.
+type rfConn struct{ recConn }
+
+func (c *rfConn) ReadFrom(r io.Reader) (n int64, err error) {
+	buf := make([]byte, 13)
+	for {
+		m, rerr := r.Read(buf)
+		if m > 0 {
+			c.Write(buf[:m])
+			n += int64(m)
+		}
+		if rerr == io.EOF {
+			return n, nil
+		}
+		if rerr != nil {
+			return n, rerr
+		}
+	}
+}
+
+// headerWithCopy: the application does not call Write itself but hands the connection to io.Copy
+// (a proxy does), which uses whatever fast-path interfaces source and destination offer. The peer
+// must see the header once and first all the same.
+func headerWithCopy(id string, seed uint64) runner.Result {
+	r := &payload.SplitMix{S: seed}
+	header := []string{"DRPC!!!1", "H", "0123456789abcdef"}[r.Intn(3)]
+	var under net.Conn
+	var rec *recConn
+	fast := r.Intn(3) != 0
+	if fast {
+		c := &rfConn{}
+		under, rec = c, &c.recConn
+	} else {
+		c := &recConn{}
+		under, rec = c, c
+	}
+	hc := drpcmigrate.NewHeaderConn(under, header)
+	steps := 1 + r.Intn(3)
+	var want []byte
+	want = append(want, header...)
+	var fails, hist []string
+	for i := 0; i < steps; i++ {
+		data := payload.Make(1, 0, 0, uint32(i), r.Intn(70))
+		if i == 0 && r.Intn(4) == 0 {
+			data = nil
+		}
+		var n int64
+		var err error
+		switch r.Intn(3) {
+		case 0:
+			hist = append(hist, fmt.Sprintf("Write(%d)", len(data)))
+			var m int
+			m, err = hc.Write(data)
+			n = int64(m)
+		case 1:
+			// a source with its own WriteTo (bytes.Reader): io.Copy lets the source write
+			hist = append(hist, fmt.Sprintf("io.Copy(conn, bytes.Reader of %d)", len(data)))
+			n, err = io.Copy(hc, bytes.NewReader(data))
+		default:
+			// a plain source (a socket, a pipe): io.Copy asks the destination for ReadFrom
+			hist = append(hist, fmt.Sprintf("io.Copy(conn, plain reader of %d)", len(data)))
+			n, err = io.Copy(hc, struct{ io.Reader }{bytes.NewReader(data)})
+		}
+		if err != nil || n != int64(len(data)) {
+			fails = append(fails, fmt.Sprintf("step %d %s returned (%d, %v), want (%d, nil): counts must exclude the header", i, hist[i], n, err, len(data)))
+		}
+		want = append(want, data...)
+	}
+	desc := fmt.Sprintf("header=%q underlying-conn-has-ReadFrom=%v steps=%v", header, fast, hist)
+	rec.mu.Lock()
+	var wire []byte
+	for _, w := range rec.writes {
+		wire = append(wire, w...)
+	}
+	rec.mu.Unlock()
+	// without a single payload byte the header may still be unsent (a copy of nothing writes nothing)
+	if !bytes.Equal(wire, want) && !(len(want) == len(header) && len(wire) == 0) {
+		fails = append(fails, fmt.Sprintf("the peer received %d bytes %q..., want the header once and then the payload (%d bytes); the header occurs %d times", len(wire), clip(wire), len(want), bytes.Count(wire, []byte(header))))
+	}
+	if len(fails) > 0 {
+		return runner.Violation(id, "header:not-exactly-once-first-with-io.Copy", desc+"\n"+strings.Join(fails, "\n"))
+	}
+	res := runner.Hold(id, desc, true)
+	res.Events = int64(steps)
+	return res
+}
+
 func headerScenario(id string, seed uint64) runner.Result {
 	r := &payload.SplitMix{S: seed}
 	header := []string{"DRPC!!!1", "H", "", "0123456789abcdef"}[r.Intn(4)]
@@ -760,6 +848,10 @@ func gen(tier string, seed uint64) []runner.Scenario {
 		out = append(out, runner.Scenario{ID: id, Run: func() runner.Result { return muxScenario(id, payload.Hash(seed, 0x16, uint64(i))) }})
 		id2 := fmt.Sprintf("header/%d", i)
 		out = append(out, runner.Scenario{ID: id2, Run: func() runner.Result { return headerScenario(id2, payload.Hash(seed, 0x161, uint64(i))) }})
+		if i%10 == 0 {
+			id4 := fmt.Sprintf("header-with-io-copy/%d", i)
+			out = append(out, runner.Scenario{ID: id4, Run: func() runner.Result { return headerWithCopy(id4, payload.Hash(seed, 0x163, uint64(i))) }})
+		}
 		if i%20 == 0 {
 			id3 := fmt.Sprintf("header-after-cut-write/%d", i)
 			out = append(out, runner.Scenario{ID: id3, Run: func() runner.Result { return headerAfterCutWrite(id3, payload.Hash(seed, 0x162, uint64(i))) }})
@@ -772,7 +864,7 @@ func main() {
 	runner.Main(runner.Check{
 		Property: "C16",
 		Level:    "exploration",
-		Rule:     "mux case: prefix length in {1,4,8}, 0-3 routes registered before or between connections, 2-9 client connections whose bytes (prefix+tagged payload, or fewer bytes than the prefix) are written in seeded splits incl. inside the prefix and then closed, listeners with and without an acceptor (also started late), route listeners closed at seeded moments, the multiplexer stopped by context cancel or base Close at a seeded moment; ledger: delivered exactly once to the right listener with the right bytes, or closed; every Accept returned an error and Run returned at quiescence. header case: 1-3 concurrent writers x 1-3 writes (empty first writes), 4 header strings, the first underlying write optionally parked. Non-trivial: at least one connection delivered / any header case. Distinct: by step history.",
+		Rule:     "mux case: prefix length in {1,4,8}, 0-3 routes registered before or between connections, 2-9 client connections whose bytes (prefix+tagged payload, or fewer bytes than the prefix) are written in seeded splits incl. inside the prefix and then closed, listeners with and without an acceptor (also started late), route listeners closed at seeded moments, the multiplexer stopped by context cancel or base Close at a seeded moment; ledger: delivered exactly once to the right listener with the right bytes, or closed; every Accept returned an error and Run returned at quiescence. header case: 1-3 concurrent writers x 1-3 writes (empty first writes), 4 header strings, the first underlying write optionally parked; header-with-io-copy: 1-3 steps each a Write or an io.Copy into the header connection from a source with or without WriteTo, over an underlying connection with or without ReadFrom. Non-trivial: at least one connection delivered / any header case. Distinct: by step history.",
 		Assumptions: []string{
 			"clients always finish writing and close (a peer that never sends its prefix keeps a routing goroutine waiting by design)",
 			"a connection whose route was closed by the application at some point may be delivered to that route, to the default listener (with its prefix) or closed; a connection whose route was registered only after it arrived may go to either",
